@@ -74,7 +74,7 @@ PROPS = {
         module='Props.C11', level='proof',
         profiles=dict(quick=[('smp', 25, 1)], thorough=[('smp', 200, 8)]),
         explanation='algebraic theorems for all exponents and secrets (Props.C11: honest proofs verify, equal secrets succeed on both sides, different secrets fail on both sides given p, q prime); model tied to smp*.go by differential runs with real 1536-bit arithmetic; Go oracle over honest runs (secret pairs incl. empty/long/binary/one bit apart, question, either initiator, back to back, traffic in between, both versions) and a relay between two separately keyed sessions',
-        assumptions=['Nat.Prime p and Nat.Prime q are hypotheses of c11_unequal_fail (no primality certificate available offline)', 'binding of the hashed secret to fingerprints and SSID relies on collision resistance of SHA-256']),
+        assumptions=['Nat.Prime p and Nat.Prime q are hypotheses of c11_unequal_fail (no primality certificate available offline)', 'the honest proof exponents are non-zero (hypothesis of the success theorems: a 2^-1535 event in which the library, like libotr, rejects an honest message)', 'binding of the hashed secret to fingerprints and SSID relies on collision resistance of SHA-256']),
     'C12': dict(
         module='Props.C12', level='proof',
         profiles=dict(quick=[('smp', 40, 1)], thorough=[('smp', 300, 8), ('parse', 200, 2)]),
@@ -100,6 +100,11 @@ PROPS = {
         profiles=dict(quick=[('sched', 12, 1), ('schedx', 60, 1)], thorough=[('sched', 80, 8), ('schedx', 4000, 1), ('frag', 40, 2)]),
         explanation='inductive invariant of the two-party system over ALL interleavings of sends and deliveries, any number in flight, any number of rotations (Props.C04: every delivery accepted, exactly once, in order, same keys on both sides, AES-CTR involution); tied to the code by whole-session differential runs; Go oracle: per-side expected-text queues over random long schedules (fragmentation, heartbeats, SMP, extra key, both versions) and exhaustive interleavings to a bounded depth',
         assumptions=['DH commutativity and pairwise distinct public keys (hypotheses of c04_key_agreement)', 'key ids < 2^32, counters < 2^64', 'texts without NUL (the guard of the property itself)']),
+    'C10': dict(
+        module='Props.C10', level='proof',
+        profiles=dict(quick=[('spec', 12, 1), ('pure', 2000, 1)], thorough=[('spec', 120, 8), ('sched', 20, 2), ('smp', 60, 2), ('policy', 500, 1), ('frag', 20, 2)]),
+        explanation='conformance theorems: every serialiser, key derivation, MAC input, counter, key-id choice, TLV/padding layout, SMP payload, armour, header, query, whitespace tag and fragment of the model equals an independent Lean formalisation of the protocol document (Props.C10, 98 theorems); executable tie: a reference implementation built only on that formalisation is given the logged secrets of real sessions and must rebuild every emitted message byte for byte, re-derive ssid, fingerprints and extra key, read every delivery, and its own messages (using the freedoms the document leaves) must be accepted and read exactly by the library',
+        assumptions=['the formalisation of the protocol document (Otr/Spec.lean) is itself read and trusted', 'SHA-256/HMAC output lengths are hypotheses of two theorems', 'the reference has no SMP engine: SMP payloads are checked for shape and hash inputs by theorem', 'known finding: SMP abort TLV carries a 4-byte value (test-pinned)']),
 }
 
 # properties not claimed yet (kept current; each is moved into PROPS when its check exists)
